@@ -562,3 +562,53 @@ def only_none_returns(body, start, avoid=()):
         return False
     rs = cfg.return_shapes(body, start, avoid)
     return bool(rs) and all(sh is not None and sh[0] == 0 for (_bb, sh) in rs)
+
+
+def zero_tests(body, prov, origin_pred):
+    """Branches that test an integer for zero, where the integer's origins satisfy origin_pred(origin):
+    `x > 0`, `x == 0`, `x != 0`, `x >= 1`, `x < 1`, `x <= 0` (either way round, possibly negated) and the
+    integer-pattern form `match x { 0 => .., _ => .. }`. Returns [(switch bb, zero_arm, nonzero_arm, description)]."""
+    out = []
+    for bb in sorted(body.reachable_blocks()):
+        t = body.term(bb)
+        if t["k"] != "switch":
+            continue
+        k, pl, neg = trace_bool(body, t["discr"])
+        if k == "bin":
+            rv = pl["rv"]
+            ka, kb = op_const(rv["a"]), op_const(rv["b"])
+            if kb is not None and ka is None:
+                x, c, op = rv["a"], kb.get("int"), rv["op"]
+            elif ka is not None and kb is None:
+                x, c = rv["b"], ka.get("int")
+                op = {"Gt": "Lt", "Lt": "Gt", "Ge": "Le", "Le": "Ge"}.get(rv["op"], rv["op"])
+            else:
+                continue
+            if not any(origin_pred(o) for o in prov.origins_op(x)):
+                continue
+            tt, ft = bool_switch_targets(body, bb)
+            if neg:
+                tt, ft = ft, tt
+            form = (op, c)
+            if form in (("Gt", 0), ("Ne", 0), ("Ge", 1)):
+                out.append((bb, ft, tt, "%s %s" % form))
+            elif form in (("Eq", 0), ("Lt", 1), ("Le", 0)):
+                out.append((bb, tt, ft, "%s %s" % form))
+            else:
+                out.append((bb, None, None, "%s %s" % form))
+        elif k in ("place", "other", "call") or k is None:
+            # `match x { 0 => A, _ => B }`: a switch on the integer itself
+            p = op_place(t["discr"])
+            if p is None:
+                continue
+            ty = body.place_ty(p) or ""
+            if ty not in ("u32", "usize", "u64", "u16", "u8", "i32", "i64", "isize"):
+                continue
+            if not any(origin_pred(o) for o in prov.origins_op(t["discr"])):
+                continue
+            arms = {v: tg for v, tg in t["arms"]}
+            if set(arms) == {0}:
+                out.append((bb, arms[0], t["otherwise"], "match on 0"))
+            else:
+                out.append((bb, None, None, "match on %s" % sorted(arms)))
+    return out
